@@ -189,19 +189,34 @@ def recvLoop (applySharding : Bool) (st : Store) : (i : Nat) → List (Frame × 
 /-- `rmLabels` -/
 def rmLabels (l : Labels) (names : List Bytes) : Labels := l.filter (fun p => !(names.contains p.1))
 
-def insertSeries (s : Series) : List Series → List Series
-  | [] => [s]
-  | d :: r => if cmpLabels s.lbls d.lbls = .gt then d :: insertSeries s r else s :: d :: r
+/-- the comparator `sortWithoutLabels` hands to `sort.Slice`: `less(i, j)` with `a = set[i]`,
+    `b = set[j]` (a non-series response is "less" than anything, also than another non-series) -/
+def sortLess (a b : Frame) : Bool :=
+  match a with
+  | .series sa =>
+    match b with
+    | .series sb => cmpLabels sa.lbls sb.lbls = .lt
+    | _ => false
+  | _ => true
 
-/-- `sortWithoutLabels`: replica labels removed, non-series frames moved to the front, series sorted
-    by labels.  (`sort.Slice` is not stable and its comparator is not a consistent order on
-    non-series frames; the model keeps arrival order among equals (`foldr` + insert before equals
-    = a stable insertion sort) — outputs are compared after deduplication, warnings as a multiset.) -/
+/-- inner loop of Go's `insertionSort_func`: `x` travels left through the (reversed) sorted
+    prefix while `less(x, previous)` -/
+def insLoop (x : Frame) : List Frame → List Frame → List Frame
+  | [], passed => x :: passed
+  | p :: ps, passed => if sortLess x p then insLoop x ps (p :: passed) else (p :: ps).reverse ++ x :: passed
+
+/-- `sort.Slice` for slices of at most 12 elements is this insertion sort (longer slices go through
+    pdqsort, which is not modelled: results are compared after deduplication, where the order among
+    equal label sets no longer matters unless two different chunks share a key) -/
+def goInsertionSort (fs : List Frame) : List Frame :=
+  fs.foldl (fun pre x => insLoop x pre.reverse []) []
+
+/-- `sortWithoutLabels`: replica labels removed, then `sort.Slice` with `sortLess` — non-series
+    responses end up in front, series sorted by labels -/
 def sortWithoutLabels (fs : List Frame) (names : List Bytes) : List Frame :=
-  let fs' := fs.map (fun f => match f with
+  goInsertionSort (fs.map (fun f => match f with
     | .series s => if names.isEmpty then f else .series { s with lbls := rmLabels s.lbls names }
-    | _ => f)
-  fs'.filter (fun f => !f.isSeries) ++ ((seriesOf fs').foldr insertSeries []).map Frame.series
+    | _ => f))
 
 /-- what the merge sees of one store: `lazyRespSet` / `eagerRespSet` (a store that cannot strip
     replica labels itself is always read eagerly and re-sorted) -/
@@ -305,20 +320,25 @@ def fanOut (rq : Request) : List Store → List Frame × List (List Frame) × Bo
       let (w, sets, failed) := fanOut rq rest
       (w, respSet rq.lazy rq.sharded rq.without st :: sets, failed)
 
-/-- `ProxyStore.Series` after store selection: what the client's `Store_SeriesServer` receives and
-    how the call ends -/
-def proxySeries (rq : Request) (stores : List Store) : List Frame × Outcome :=
+/-- `ProxyStore.Series` after store selection, with the k-way merge as a parameter: what the
+    client's `Store_SeriesServer` receives and how the call ends -/
+def proxySeriesWith (merge : List (List Frame) → List Frame) (rq : Request) (stores : List Store) :
+    List Frame × Outcome :=
   -- "There are no stores registered at all and partial results are disabled"
   if stores.isEmpty && rq.abort then ([], .noStores) else
   let (openWarnings, sets, failed) := fanOut rq stores
   -- warnings of stores that failed to open go through `srv.Send` first
   if failed then (serverOut rq.batchSize false openWarnings, .openFailed)
   else
-    let merged := treeMerge sets
+    let merged := merge sets
     let resps := if rq.dedup then dedup rq.fixedDedup merged else merged
     let (sent, st) := respLoop rq.limit rq.abort 0 resps
     match st with
     | .ok => (serverOut rq.batchSize true (openWarnings ++ sent), .ok)
     | .aborted => (serverOut rq.batchSize false (openWarnings ++ sent), .aborted)
+
+/-- … with the loser tree of pkg/losertree as the merge: the model the driver runs -/
+def proxySeries (rq : Request) (stores : List Store) : List Frame × Outcome :=
+  proxySeriesWith treeMerge rq stores
 
 end Thanos.Merge
